@@ -640,6 +640,12 @@ func ruleOwnGoroutine(c *Ctx, r *R, op ownedParam, key string, uses []ownUse) {
 			return
 		}
 	}
+	// no way out of the function that skips the spawn: an early return (a fast path for an already-cancelled context, …)
+	// hands back something whose Close does not reach the stream, and nobody ever closes it
+	if ret := returnSkippingSpawn(op.fn, goInstr); ret != nil {
+		r.violated(key, retPos(ret), funcShort(op.fn)+" can return without having started the goroutine that owns and closes "+op.param.Name()+": on that path the stream is never closed")
+		return
+	}
 	// the returned stream's Close must cancel and wait
 	if wrapperCloseCancelsAndWaits(c, r, op, key) {
 		r.discharged(key, op.param.Pos(), "goroutine-owned ("+started+"): sole user, deferred Close dominates Next, the returned stream's Close cancels then waits")
@@ -1159,4 +1165,40 @@ func ruleOwnHeld(c *Ctx, r *R, op ownedParam, key string, u ownUse) {
 	if wrapperCloseCancelsAndWaits(c, r, op, key) {
 		r.discharged(key, op.param.Pos(), "goroutine-owned through "+funcShort(h)+" ("+started+"): one call per element, deferred Close, the returned stream's Close cancels then waits")
 	}
+}
+
+// returnSkippingSpawn: a return of fn that is not preceded, on every path, by the spawn (for a spawn inside a loop: by the
+// loop's condition block - a loop over zero elements owns nothing).
+func returnSkippingSpawn(fn *ssa.Function, spawn ssa.Instruction) *ssa.Return {
+	if spawn == nil || spawn.Parent() != fn {
+		return nil
+	}
+	anchor := spawn.Block()
+	// innermost loop condition block that encloses the spawn
+	for d := anchor.Idom(); d != nil; d = d.Idom() {
+		if len(d.Instrs) == 0 {
+			continue
+		}
+		if _, isIf := d.Instrs[len(d.Instrs)-1].(*ssa.If); isIf && reaches(spawn.Block(), d) {
+			anchor = d
+			break
+		}
+	}
+	var bad *ssa.Return
+	for _, b := range fn.Blocks {
+		if len(b.Instrs) == 0 || b.Comment == "recover" {
+			continue
+		}
+		ret, ok := b.Instrs[len(b.Instrs)-1].(*ssa.Return)
+		if !ok {
+			continue
+		}
+		if b == anchor || anchor.Dominates(b) {
+			continue
+		}
+		if bad == nil {
+			bad = ret
+		}
+	}
+	return bad
 }
